@@ -25,6 +25,7 @@ structure Ctx where
 
 inductive DKind where
   | grow | full | pigrow | progressive
+  | dsge        -- DynamicSGEDecider: every decision is read from the genotype
   deriving Repr, BEq, Inhabited
 
 structure Decider where
@@ -32,14 +33,29 @@ structure Decider where
   maxDepth : Nat
   deriving Repr, Inhabited
 
-/-- Mutable state during synthesis: the random stream and PI-grow's `expanding` flag
-(which lives on the decider object and therefore persists across calls). -/
-structure SynSt where
-  src : Script
-  expanding : Bool := true
+/-- The random source behind `GlobalSynthesisContext.random` (and, for the tree deciders, behind
+`decider.random`): the harness's scripted stream, or a genotype (GE / SGE mapping). -/
+inductive AnySrc where
+  | scripted (s : Script)
+  | gene (s : GeneSrc)
   deriving Repr
 
-instance : Inhabited SynSt := ⟨{ src := { draws := [] } }⟩
+def AnySrc.randint (lo hi : Int) : AnySrc → Int × AnySrc
+  | .scripted s => let (v, s') := scriptedRandint lo hi s; (v, .scripted s')
+  | .gene s => let (v, s') := geneRandint lo hi s; (v, .gene s')
+
+/-- Mutable state during synthesis: the random stream, PI-grow's `expanding` flag (which lives
+on the decider object and therefore persists across calls) and, for dynamic SGE, the genotype
+(`dna`, extended on demand) with the per-type read positions of the current mapping. -/
+structure SynSt where
+  src : AnySrc
+  expanding : Bool := true
+  dna : List (Ty × List Int) := []
+  pos : List (Ty × Nat) := []
+  metaFromGenes : Bool := false   -- dynamic SGE: metahandler draws are read from the genotype
+  deriving Repr
+
+instance : Inhabited SynSt := ⟨{ src := .scripted { draws := [] } }⟩
 
 inductive Res (α : Type) where
   | ok (a : α) (s : SynSt)
@@ -57,10 +73,57 @@ instance : Monad SynM where
 
 def throwE {α : Type} (e : Err) : SynM α := fun s => .err e s
 
-def randintM (lo hi : Int) : SynM Int := fun s =>
+/-- a draw from the underlying random source -/
+def rawRandintM (lo hi : Int) : SynM Int := fun s =>
   if hi < lo then .err (.foreign "ValueError") s else
-  let (v, src') := scriptedRandint lo hi s.src
+  let (v, src') := s.src.randint lo hi
   .ok v { s with src := src' }
+
+/-! ### Dynamic SGE: reading (and extending) the genotype -/
+
+def tyLookup {α : Type} (k : Ty) (d : α) : List (Ty × α) → α
+  | [] => d
+  | (k', v) :: rest => if k' == k then v else tyLookup k d rest
+
+def tySet {α : Type} (k : Ty) (v : α) : List (Ty × α) → List (Ty × α)
+  | [] => [(k, v)]
+  | (k', v') :: rest => if k' == k then (k, v) :: rest else (k', v') :: tySet k v rest
+
+def MAX_GENE_VALUE : Int := 1024
+
+/-- `Genotype.get(ty, n)`: extend `dna[ty]` with fresh draws from the genotype's random source
+until position `n` exists. -/
+def extendGenes : Nat → List Int → Nat → SynM (List Int)
+  | 0, genes, _ => pure genes
+  | k + 1, genes, n =>
+    if n < genes.length then pure genes else do
+    let v ← rawRandintM 0 MAX_GENE_VALUE
+    extendGenes k (genes ++ [v]) n
+
+/-- `DynamicSGEDecider.read(ty)` -/
+def dsgeRead (k : Ty) : SynM Int := fun s =>
+  let p := tyLookup k 0 s.pos
+  let genes := tyLookup k [] s.dna
+  match extendGenes (p + 1 - genes.length) genes p s with
+  | .err e s' => .err e s'
+  | .ok genes' s' =>
+    .ok (genes'.getD p 0) { s' with dna := tySet k genes' s'.dna, pos := tySet k (p + 1) s'.pos }
+
+/-- `DynamicSGEDecider.random_int` on a gene -/
+def dsgeIntM (lo hi : Int) : SynM Int := do
+  let v ← dsgeRead .int
+  if hi < lo then throwE (.foreign "ZeroDivisionError") else
+  pure (dsgeRandomInt v lo hi)
+
+/-- `GlobalSynthesisContext.random.randint`: the source metahandlers (and the tree deciders)
+draw from.  Under dynamic SGE it is the genotype-backed source. -/
+def randintM (lo hi : Int) : SynM Int := fun s =>
+  if s.metaFromGenes then dsgeIntM lo hi s else rawRandintM lo hi s
+
+/-- one `random_float` of the global source (value not modelled) -/
+def floatDrawM : SynM Unit := fun s =>
+  if s.metaFromGenes then (do let _ ← dsgeRead .float; pure () : SynM Unit) s
+  else (do let _ ← rawRandintM 0 0; pure () : SynM Unit) s
 
 /-- `random.choice(xs)` by index; an empty list is the `assert choices` failure. -/
 def choiceIdxM (n : Nat) : SynM Nat :=
@@ -129,7 +192,7 @@ def pigrowCands (g : Grammar) (dec : Decider) (alts : List Ty) (ctx : Ctx) (expa
   (e2, if c1.isEmpty then baseline else c1)
 
 /-- `choose_production_alternatives` of the four tree deciders. -/
-def chooseProd (g : Grammar) (dec : Decider) (alts : List Ty) (ctx : Ctx) : SynM Ty :=
+def chooseProd (g : Grammar) (dec : Decider) (key : Ty) (alts : List Ty) (ctx : Ctx) : SynM Ty :=
   if alts.isEmpty then throwE (.foreign "AssertionError") else
   match dec.kind with
   | .grow => do
@@ -144,6 +207,12 @@ def chooseProd (g : Grammar) (dec : Decider) (alts : List Ty) (ctx : Ctx) : SynM
       let (e2, c) := pigrowCands g dec alts ctx s.expanding
       (do let i ← choiceIdxM c.length
           listGetM c i : SynM Ty) { s with expanding := e2 }
+  | .dsge => do
+      -- the key is the symbol being expanded (an abstract class, or the Union type itself)
+      let v ← dsgeRead key
+      let c := alts.filter (fits g dec ctx)
+      if c.isEmpty then throwE (.foreign "ZeroDivisionError") else
+      listGetM c (v % (c.length : Int)).toNat
   | .progressive =>
       -- unweighted grammars only (every registered symbol has weight 1.0)
       if !(alts.all g.hasWeight) then throwE (.foreign "KeyError") else
@@ -163,6 +232,33 @@ def chooseProd (g : Grammar) (dec : Decider) (alts : List Ty) (ctx : Ctx) : SynM
         match pickAcc acc r.toNat with
         | some i => listGetM alts i
         | none => listGetM alts (alts.length - 1)
+
+/-- `decider.random_int(lo, hi)` -/
+def decIntM (dec : Decider) (E : Nat) (lo hi : Int) : SynM Int :=
+  match dec.kind with
+  | .dsge => dsgeIntM lo hi
+  | _ => deciderIntM E lo hi
+
+/-- `decider.random_float()`: the value is not modelled, the draws are.  Tree deciders call
+`random.normalvariate`: one draw on the scripted source; on a genotype-backed source it is the
+Box–Muller default, i.e. two `random_float` calls of one gene each. -/
+def decFloatM (dec : Decider) : SynM Unit :=
+  match dec.kind with
+  | .dsge => do let _ ← dsgeRead .float; pure ()
+  | _ => fun s =>
+    match s.src with
+    | .scripted _ => (do let _ ← randintM 0 0; pure () : SynM Unit) s
+    | .gene _ => (do let _ ← randintM 0 0; let _ ← randintM 0 0; pure () : SynM Unit) s
+
+/-- `decider.random_bool()` -/
+def decBoolM (dec : Decider) : SynM Bool :=
+  match dec.kind with
+  | .dsge => do
+      let v ← dsgeRead .bool
+      pure (v % 2 == 1)
+  | _ => do
+      let b ← choiceIdxM 2
+      pure (b = 0)
 
 def strsOf : List Val → Option (List String)
   | [] => some []
@@ -215,19 +311,21 @@ def createNode (g : Grammar) (dec : Decider) : Nat → Ty → Ctx → List (Stri
   | fuel + 1, ty, ctx, deps =>
     match ty with
     | .int => do
-        let v ← deciderIntM defaultE defaultLo defaultHi
+        -- `decider.random_int()` with the decider's own default bounds
+        let lo := if dec.kind == .dsge then -defaultHi else defaultLo
+        let v ← decIntM dec defaultE lo defaultHi
         pure (.int v)
     | .float => do
-        let _ ← randintM 0 0     -- one draw (normalvariate); the value is not modelled
+        decFloatM dec
         pure .float
     | .bool => do
-        let b ← choiceIdxM 2
-        pure (.bool (b = 0))
+        let b ← decBoolM dec
+        pure (.bool b)
     | .tuple ts => do
         let vs ← createTuple g dec fuel ts ctx
         pure (.tuple vs)
     | .list t => do
-        let len ← deciderIntM 0 0 10
+        let len ← decIntM dec 0 0 10
         let vs ← createElems g dec fuel t ⟨ctx.depth + g.e, ctx.exp + 1⟩ [] len.toNat
         pure (.list ctx.depth ctx.exp vs)
     | .ann base mh =>
@@ -263,21 +361,21 @@ def createNode (g : Grammar) (dec : Decider) : Nat → Ty → Ctx → List (Stri
             let start ← randintM 0 (top - len)
             pure (.tuple [.int start, .int (start + len)])
         | .floatRange => do
-            let _ ← randintM 0 0
+            floatDrawM
             pure .float
         | .floatList n => do
             let _ ← choiceIdxM n
             pure .float
         | _ => throwE (.foreign "unreachable")
     | .union ts => do
-        let t ← chooseProd g dec ts ctx
+        let t ← chooseProd g dec (.union ts) ts ctx
         let v ← createNode g dec fuel t ctx deps
         pure (v.setCtx ctx.depth ctx.exp)
     | .str => pure (.str "")
     | .cls n =>
         if !(g.reg.allNodes.contains (.cls n)) then throwE .library else
         match g.altsOf n with
-        | some prods => createAbstract g dec fuel prods ctx
+        | some prods => createAbstract g dec fuel n prods ctx
         | none => do
             let args ← createFields g dec fuel (g.cls n).fields ⟨ctx.depth + 1, ctx.exp + 1⟩ []
             pure (.node n ctx.depth ctx.exp args)
@@ -285,17 +383,17 @@ def createNode (g : Grammar) (dec : Decider) : Nat → Ty → Ctx → List (Stri
 /-- the retry loop over the productions of an abstract class: a production whose creation
 raises `SynthesisException` is removed from a LOCAL copy of the list and another is tried;
 the draws made by the failed attempt stay consumed. -/
-def createAbstract (g : Grammar) (dec : Decider) : Nat → List Nat → Ctx → SynM Val
-  | 0, _, _ => throwE (.foreign "fuel")
-  | fuel + 1, prods, ctx => fun s =>
+def createAbstract (g : Grammar) (dec : Decider) : Nat → Nat → List Nat → Ctx → SynM Val
+  | 0, _, _, _ => throwE (.foreign "fuel")
+  | fuel + 1, n, prods, ctx => fun s =>
     if prods.isEmpty then .err .synthesis s else
-    match chooseProd g dec (prods.map Ty.cls) ctx s with
+    match chooseProd g dec (.cls n) (prods.map Ty.cls) ctx s with
     | .err e s1 => .err e s1
     | .ok rule s1 =>
       match createNode g dec fuel rule ⟨ctx.depth, ctx.exp + 1⟩ [] s1 with
       | .ok v s2 => .ok (v.setCtx ctx.depth ctx.exp) s2
       | .err .synthesis s2 =>
-          createAbstract g dec fuel (prods.filter fun p => !(Ty.cls p == rule)) ctx s2
+          createAbstract g dec fuel n (prods.filter fun p => !(Ty.cls p == rule)) ctx s2
       | .err e s2 => .err e s2
 
 def createFields (g : Grammar) (dec : Decider) : Nat → List (String × Ty) → Ctx → List (String × Val) → SynM (List Val)
@@ -327,7 +425,7 @@ end
 def deciderValid (g : Grammar) (dec : Decider) : Bool :=
   match dec.kind with
   | .progressive => true
-  | _ => decide (g.minTreeDepth ≤ dec.maxDepth)
+  | _ => decide (g.minTreeDepth ≤ dec.maxDepth)   -- dSGE as repaired (it used to reject d = min)
 
 /-- `random_tree` after the decider was constructed: create from the start symbol at the
 empty context. -/
